@@ -67,6 +67,6 @@ CONTRACT[K + 'calculateNumberDifferentPhosphoStates'] = dict(self=mk_seq_phos(ns
                                                              cases=[dict(self=mk_seq_phos(nsites=k)) for k in (0, 1, 2, 3)],
                                                              ensures=['result == 2 ** length(self.phosphosites)'])
 CONTRACT[K + 'calculateKappaDistOfPhosphoStates'] = dict(
-    self=mk_seq_phos(nsites=1, dmax='unset'), cases=[dict(self=mk_seq_phos(nsites=k, dmax='unset')) for k in (0, 1, 2)],
+    self=mk_seq_phos(nsites=1, dmax='unset'), cases=[dict(self=mk_seq_phos(nsites=k, dmax='unset')) for k in (0, 1, 2, 3)],
     raises=[], modifies=[],
     ensures=['dist_ok(result, self.seq, self.len, self.phosphosites)'])
